@@ -142,10 +142,14 @@ pub fn arb_pipe_recs(max_len: usize) -> BoxedStrategy<Vec<Rec>> {
 
 /// the documented grouping of a list of printed rows by their `g` member
 pub fn group_model(rows: &[RVal]) -> RVal {
+    group_model_by(rows, "g")
+}
+
+pub fn group_model_by(rows: &[RVal], field: &str) -> RVal {
     let mut keys: Vec<String> = Vec::new();
     let mut groups: Vec<Vec<RVal>> = Vec::new();
     for r in rows {
-        if let Some(RVal::Str(k)) = r.get("g") {
+        if let Some(RVal::Str(k)) = r.get(field) {
             match keys.iter().position(|x| x == k) {
                 Some(p) => groups[p].push(r.clone()),
                 None => {
